@@ -1,5 +1,4 @@
 SPECIFICATION TSpec
 CONSTRAINT Track
-INVARIANT Ok
 POSTCONDITION Accepted
 CHECK_DEADLOCK FALSE
